@@ -216,6 +216,9 @@ func (r *rewriter) shim() bool {
 	if r.rewriteExprs() {
 		changed = true
 	}
+	if r.captureCallbacks() {
+		changed = true
+	}
 
 	return changed
 }
@@ -399,6 +402,36 @@ func (r *rewriter) iceSeam() bool {
 		r.needVsched = true
 		call.Args = append([]ast.Expr{&ast.SelectorExpr{X: id, Sel: s.Sel}}, call.Args...)
 		call.Fun = sel("vsched", "ICEConnect")
+		changed = true
+
+		return true
+	})
+
+	return changed
+}
+
+// captureCallbacks wraps the callbacks handed to the ICE agent (library goroutines) in vsched.Capture.
+func (r *rewriter) captureCallbacks() bool {
+	changed := false
+	names := map[string]bool{"OnCandidate": true, "OnConnectionStateChange": true, "OnSelectedCandidatePairChange": true}
+	ast.Inspect(r.file, func(n ast.Node) bool {
+		call, ok := n.(*ast.CallExpr)
+		if !ok || len(call.Args) != 1 {
+			return true
+		}
+		s, ok := call.Fun.(*ast.SelectorExpr)
+		if !ok || !names[s.Sel.Name] {
+			return true
+		}
+		id, ok := s.X.(*ast.Ident)
+		if !ok || id.Name != "agent" {
+			return true
+		}
+		r.needVsched = true
+		call.Args[0] = &ast.CallExpr{
+			Fun:  sel("vsched", "Capture"),
+			Args: []ast.Expr{&ast.BasicLit{Kind: token.STRING, Value: `"` + s.Sel.Name + `"`}, call.Args[0]},
+		}
 		changed = true
 
 		return true
